@@ -169,7 +169,7 @@ def main():
                 for nc in (1, dim):
                     chk.add(adjointness, real_t=rt, dim=dim, n_components=nc, pattern=pattern, grid=grid)
             for kernel in ("peskin", "cosine"):
-                cases = [["interior"] * dim] if chk.quick else [["interior"] * dim, ["zero"] + ["interior"] * (dim - 1), ["zero"] * dim]
+                cases = [["interior"] * dim, ["zero"] + ["interior"] * (dim - 1)] if chk.quick else [["interior"] * dim, ["zero"] + ["interior"] * (dim - 1), ["interior"] * (dim - 1) + ["zero"], ["zero"] * dim]
                 for case in cases:
                     chk.add(force_and_torque, real_t=rt, dim=dim, kernel=kernel, n_components=dim, case=case)
                 chk.add(force_and_torque, real_t=rt, dim=dim, kernel=kernel, n_components=1, case=["interior"] * dim)
